@@ -54,7 +54,7 @@ def run_operator(rec):
 NAMES = ["dyn_loss", "initial_condition", "norm_loss", "boundary_loss", "observations"]
 
 
-def build_loss(rec):
+def build_loss(rec, derivative_keys=None):
     """loss record -> (jinns loss, params, batch) built through the public constructors"""
     import warnings
 
@@ -163,17 +163,20 @@ def build_loss(rec):
     if lkind == "ode":
         lw = jinns.loss.LossWeightsODE(dyn_loss=wt(w["dyn"]), initial_condition=wt(w["ic"]), observations=wt(w["obs"]))
         ic = (float(rec["ic"]["t0"]), jnp.array([float(v) for v in rec["ic"]["u0"]])) if rec["ic"]["on"] else None
-        loss = jinns.loss.LossODE(u=u, dynamic_loss=dyn, initial_condition=ic, loss_weights=lw, obs_slice=jnp.s_[osl[0] - 1:osl[1]], params=params)
+        loss = jinns.loss.LossODE(u=u, dynamic_loss=dyn, initial_condition=ic, loss_weights=lw, obs_slice=jnp.s_[osl[0] - 1:osl[1]], params=params,
+                                  derivative_keys=derivative_keys)
     elif lkind == "statio":
         lw = jinns.loss.LossWeightsPDEStatio(dyn_loss=wt(w["dyn"]), norm_loss=wt(w["norm"]), boundary_loss=wt(w["bnd"]), observations=wt(w["obs"]))
-        loss = jinns.loss.LossPDEStatio(u=u, dynamic_loss=dyn, loss_weights=lw, obs_slice=jnp.s_[osl[0] - 1:osl[1]], params=params, **kw)
+        loss = jinns.loss.LossPDEStatio(u=u, dynamic_loss=dyn, loss_weights=lw, obs_slice=jnp.s_[osl[0] - 1:osl[1]], params=params,
+                                        derivative_keys=derivative_keys, **kw)
     else:
         lw = jinns.loss.LossWeightsPDENonStatio(dyn_loss=wt(w["dyn"]), norm_loss=wt(w["norm"]), boundary_loss=wt(w["bnd"]),
                                                 observations=wt(w["obs"]), initial_condition=wt(w["ic"]))
         if rec["ic"]["on"]:
             u0 = rec["ic"]["u0"]
             kw.update(initial_condition_fun=lambda x: jnp.stack([polyeval(c, [x[..., i] for i in range(dim)]) + 0.0 * x[..., 0] for c in u0], axis=-1))
-        loss = jinns.loss.LossPDENonStatio(u=u, dynamic_loss=dyn, loss_weights=lw, obs_slice=jnp.s_[osl[0] - 1:osl[1]], params=params, **kw)
+        loss = jinns.loss.LossPDENonStatio(u=u, dynamic_loss=dyn, loss_weights=lw, obs_slice=jnp.s_[osl[0] - 1:osl[1]], params=params,
+                                           derivative_keys=derivative_keys, **kw)
     # batch
     rows_inside = rec["cols_inside"] if spinn else rec["inside"]
     rows_border = rec.get("cols_border", []) if spinn else rec["border"]
@@ -457,6 +460,11 @@ def run_gradbatch(task):
             else:
                 if form == "default":
                     l = eqx.tree_at(lambda l: l.derivative_keys, loss0, DK(params=params))
+                elif form == "bool_rev":   # boolean tree whose equation-parameter keys are written in another order than params
+                    def mk_rev(b):
+                        return Params(nn_params=bool(b[0]), eq_params={"k2": bool(b[2]), "k1": bool(b[1])})
+                    # built through the constructor: a pytree round trip (tree_at / jit) would re-sort the user's keys
+                    l, _, _ = build_loss(rec, derivative_keys=DK(**{field[t]: mk_rev(m["mask"][k]) for k, t in enumerate(terms)}))
                 else:  # the string form of each term
                     strs = {field[t]: m["strs"][k] for k, t in enumerate(terms)}
                     l = with_keys(DK.from_str(params=params, **strs))
@@ -709,6 +717,10 @@ def run_fwdrev(rec):
             v = np.asarray(ops._vectorial_laplacian(t, x, sp, psp, u_vec_ndim=M))      # (M, b, .., b)
             fwd = np.moveaxis(v, 0, -1).reshape(nidx, M)
             rev = point(lambda tt, xx: ops._vectorial_laplacian(tt, xx, pi, ppi, u_vec_ndim=M))
+        elif op == "veclapdef":                # u_vec_ndim left to its default (the dimension of x)
+            v = np.asarray(ops._vectorial_laplacian(t, x, sp, psp))
+            fwd = np.moveaxis(v, 0, -1).reshape(nidx, -1)
+            rev = point(lambda tt, xx: ops._vectorial_laplacian(tt, xx, pi, ppi))
         elif op == "adv":
             fwd = np.asarray(ops._u_dot_nabla_times_u_fwd(t, x, sp, psp)).reshape(nidx, 2)
             rev = point(lambda tt, xx: ops._u_dot_nabla_times_u_rev(tt, xx, pi, ppi))
